@@ -23,6 +23,7 @@ VERIF=/verif
 REPO=/repo
 work=$(mktemp -d /tmp/verif-racepass-XXXXXX) || exit 3
 trap 'rm -rf "$work"' EXIT
+trap 'exit 143' TERM INT HUP   # a caller that gives up sends TERM: leave through the EXIT trap
 
 emit() { # emit <path inside the eino module> <file>
   [ $first = 1 ] || echo ','
@@ -58,4 +59,4 @@ if ! env -u GOMAXPROCS -u GOGC -u GOMEMLIMIT go build -race -tags verif -overlay
   echo "racepass.sh: build failed"
   exit 3
 fi
-env -u GOGC -u GOMEMLIMIT GOMAXPROCS=4 GORACE="halt_on_error=0" timeout -k 2 "${RACEPASS_TIMEOUT:-60}" "$work/racebin" "$@" 2>&1
+env -u GOGC -u GOMEMLIMIT GOMAXPROCS=4 GORACE="halt_on_error=0 atexit_sleep_ms=50" timeout -k 2 "${RACEPASS_TIMEOUT:-60}" "$work/racebin" "$@" 2>&1
